@@ -1,6 +1,6 @@
 //! `--macro-search`: bounded check of the wrappers emitted by the REAL `#[cache]` / `#[cache_async]` macros.
 //!
-//! A bounded stand-in (never a proof) for the wrapper contracts C01 C02 C03 C09 C10 C11 C20. Every scenario
+//! A bounded stand-in (never a proof) for the wrapper contracts C01 C02 C03 C09 C10 C11 C12 C13 C20. Every scenario
 //! drives functions decorated with /repo's own macros and compares against an uncached twin, execution
 //! counters and predicate logs (spec: /verif/notes/macro_search_spec.md).
 //!
@@ -1399,6 +1399,589 @@ fn suspended_or_dropped(_ctx: &Ctx) -> Result<(), Fail> {
 }
 
 // ------------------------------------------------------------------------------------------------
+// C12 / C13: decorated functions for group and conditional invalidation (global and async only)
+// ------------------------------------------------------------------------------------------------
+fn twin12(which: u64, a: u32) -> u64 {
+    a as u64 * 11 + which * 1000
+}
+fn twin13(a: u32) -> u64 {
+    a as u64 * 13 + 5
+}
+/// 300 bytes of payload: three of them nearly fill the 1 KB budget of the `*_mem` caches, four do not fit.
+fn twin13_mem(a: u32) -> String {
+    let mut s = format!("{a:0>300}");
+    s.shrink_to_fit();
+    s
+}
+
+// A: tags t1 t2, events e1 ; B: tags t2, dependencies d1 and its own name ; C: events e1, dependencies d1 and A ; D: nothing
+#[cache(name = "c12g_A", tags = ["c12g_t1", "c12g_t2"], events = ["c12g_e1"])]
+fn g12_a(a: u32) -> u64 {
+    instr::ran("c12g_A");
+    twin12(1, a)
+}
+#[cache(name = "c12g_B", tags = ["c12g_t2"], dependencies = ["c12g_d1", "c12g_B"])]
+fn g12_b(a: u32) -> u64 {
+    instr::ran("c12g_B");
+    twin12(2, a)
+}
+#[cache(name = "c12g_C", events = ["c12g_e1"], dependencies = ["c12g_d1", "c12g_A"])]
+fn g12_c(a: u32) -> u64 {
+    instr::ran("c12g_C");
+    twin12(3, a)
+}
+#[cache(name = "c12g_D")]
+fn g12_d(a: u32) -> u64 {
+    instr::ran("c12g_D");
+    twin12(4, a)
+}
+#[cache_async(name = "c12a_A", tags = ["c12a_t1", "c12a_t2"], events = ["c12a_e1"])]
+async fn a12_a(a: u32) -> u64 {
+    instr::ran("c12a_A");
+    twin12(1, a)
+}
+#[cache_async(name = "c12a_B", tags = ["c12a_t2"], dependencies = ["c12a_d1", "c12a_B"])]
+async fn a12_b(a: u32) -> u64 {
+    instr::ran("c12a_B");
+    twin12(2, a)
+}
+#[cache_async(name = "c12a_C", events = ["c12a_e1"], dependencies = ["c12a_d1", "c12a_A"])]
+async fn a12_c(a: u32) -> u64 {
+    instr::ran("c12a_C");
+    twin12(3, a)
+}
+#[cache_async(name = "c12a_D")]
+async fn a12_d(a: u32) -> u64 {
+    instr::ran("c12a_D");
+    twin12(4, a)
+}
+
+#[cache(limit = 4, policy = "fifo", name = "c13g_fifo")]
+fn g13_fifo(a: u32) -> u64 {
+    instr::ran("c13g_fifo");
+    twin13(a)
+}
+#[cache(limit = 4, policy = "lru", name = "c13g_lru")]
+fn g13_lru(a: u32) -> u64 {
+    instr::ran("c13g_lru");
+    twin13(a)
+}
+#[cache(name = "c13g_other")]
+fn g13_other(a: u32) -> u64 {
+    instr::ran("c13g_other");
+    twin13(a)
+}
+#[cache(max_memory = "1KB", policy = "fifo", name = "c13g_mem")]
+fn g13_mem(a: u32) -> String {
+    instr::ran("c13g_mem");
+    twin13_mem(a)
+}
+#[cache_async(limit = 4, policy = "fifo", name = "c13a_fifo")]
+async fn a13_fifo(a: u32) -> u64 {
+    instr::ran("c13a_fifo");
+    twin13(a)
+}
+#[cache_async(limit = 4, policy = "lru", name = "c13a_lru")]
+async fn a13_lru(a: u32) -> u64 {
+    instr::ran("c13a_lru");
+    twin13(a)
+}
+#[cache_async(name = "c13a_other")]
+async fn a13_other(a: u32) -> u64 {
+    instr::ran("c13a_other");
+    twin13(a)
+}
+#[cache_async(max_memory = "1KB", policy = "fifo", name = "c13a_mem")]
+async fn a13_mem(a: u32) -> String {
+    instr::ran("c13a_mem");
+    twin13_mem(a)
+}
+
+/// The four caches of `group_invalidation_<flavour>` and the strings they declare.
+struct Grp {
+    /// A, B, C, D
+    fns: [F<fn(u32) -> u64>; 4],
+    t1: &'static str,
+    t2: &'static str,
+    e1: &'static str,
+    d1: &'static str,
+    /// a name nothing declares
+    nothing: &'static str,
+}
+fn group(kind: Kind) -> Grp {
+    match kind {
+        Kind::Async => Grp {
+            fns: [
+                f!("c12a_A", |a| block_on(a12_a(a))),
+                f!("c12a_B", |a| block_on(a12_b(a))),
+                f!("c12a_C", |a| block_on(a12_c(a))),
+                f!("c12a_D", |a| block_on(a12_d(a))),
+            ],
+            t1: "c12a_t1",
+            t2: "c12a_t2",
+            e1: "c12a_e1",
+            d1: "c12a_d1",
+            nothing: "c12a_nothing",
+        },
+        _ => Grp {
+            fns: [f!("c12g_A", |a| g12_a(a)), f!("c12g_B", |a| g12_b(a)), f!("c12g_C", |a| g12_c(a)), f!("c12g_D", |a| g12_d(a))],
+            t1: "c12g_t1",
+            t2: "c12g_t2",
+            e1: "c12g_e1",
+            d1: "c12g_d1",
+            nothing: "c12g_nothing",
+        },
+    }
+}
+
+struct Cond {
+    fifo: F<fn(u32) -> u64>,
+    lru: F<fn(u32) -> u64>,
+    other: F<fn(u32) -> u64>,
+    mem: F<fn(u32) -> String>,
+    unknown: &'static str,
+}
+fn cond(kind: Kind) -> Cond {
+    match kind {
+        Kind::Async => Cond {
+            fifo: f!("c13a_fifo", |a| block_on(a13_fifo(a))),
+            lru: f!("c13a_lru", |a| block_on(a13_lru(a))),
+            other: f!("c13a_other", |a| block_on(a13_other(a))),
+            mem: f!("c13a_mem", |a| block_on(a13_mem(a))),
+            unknown: "c13a_unknown",
+        },
+        _ => Cond {
+            fifo: f!("c13g_fifo", |a| g13_fifo(a)),
+            lru: f!("c13g_lru", |a| g13_lru(a)),
+            other: f!("c13g_other", |a| g13_other(a)),
+            mem: f!("c13g_mem", |a| g13_mem(a)),
+            unknown: "c13g_unknown",
+        },
+    }
+}
+
+// ------------------------------------------------------------------------------------------------
+// C12 (emptiness, counts) / C13 (precision) group_invalidation
+// ------------------------------------------------------------------------------------------------
+#[derive(Clone, Copy)]
+enum Req {
+    Tag(&'static str),
+    Event(&'static str),
+    Dep(&'static str),
+    Name(&'static str),
+}
+impl Req {
+    fn text(self) -> String {
+        match self {
+            Req::Tag(x) => format!("invalidate_by_tag({x:?})"),
+            Req::Event(x) => format!("invalidate_by_event({x:?})"),
+            Req::Dep(x) => format!("invalidate_by_dependency({x:?})"),
+            Req::Name(x) => format!("invalidate_cache({x:?})"),
+        }
+    }
+    /// The returned count; `invalidate_cache` answers true / false, reported as 1 / 0.
+    fn issue(self) -> usize {
+        match self {
+            Req::Tag(x) => cachelito_core::invalidate_by_tag(x),
+            Req::Event(x) => cachelito_core::invalidate_by_event(x),
+            Req::Dep(x) => cachelito_core::invalidate_by_dependency(x),
+            Req::Name(x) => cachelito_core::invalidate_cache(x) as usize,
+        }
+    }
+}
+
+const GROUP_KEYS: [u32; 3] = [1, 2, 3];
+
+/// Issues `req` against caches `considered` (indices into `g.fns`), all of them warm: the answer must be
+/// `matching.len()`, every matching cache must execute again for every key (C12), every other one must
+/// serve every key (C13). Leaves all considered caches warm again.
+fn group_request(ctx: &Ctx, g: &Grp, req: Req, matching: &[usize], considered: &[usize]) -> Result<(), Fail> {
+    let text = req.text();
+    step(text.clone());
+    let got = req.issue();
+    if got != matching.len() {
+        let names: Vec<&str> = matching.iter().map(|&i| g.fns[i].name).collect();
+        let what = format!("{text} returned {got}, expected {} (used caches that declare it: {names:?})", matching.len());
+        ctx.report(&text, Fail { prop: "C12", what })?;
+    }
+    for &i in considered {
+        let f = &g.fns[i];
+        for a in GROUP_KEYS {
+            let before = instr::runs(f.name);
+            let r = (f.call)(a);
+            let ran = instr::runs(f.name) - before;
+            let e = twin12(i as u64 + 1, a);
+            if r != e {
+                let what = format!("after {text}: {}({a}) returned {r}, the uncached twin gives {e}", f.name);
+                ctx.report(&text, Fail { prop: "C13", what })?;
+            }
+            if matching.contains(&i) {
+                if ran != 1 {
+                    let what = format!(
+                        "after {text}: {}({a}) ran the body {ran} times, expected 1: the cache matches the request and must hold no entry from before it",
+                        f.name
+                    );
+                    ctx.report(&text, Fail { prop: "C12", what })?;
+                }
+            } else if ran != 0 {
+                let what = format!(
+                    "after {text}: {}({a}) ran the body {ran} times, expected 0: the cache does not match the request and must keep its entries",
+                    f.name
+                );
+                ctx.report(&text, Fail { prop: "C13", what })?;
+            }
+        }
+    }
+    Ok(())
+}
+
+/// B and C of a flavour have been called in this process (their registrations cannot be undone).
+static GROUP_USED: [AtomicBool; 2] = [AtomicBool::new(false), AtomicBool::new(false)];
+
+fn group_invalidation(kind: Kind, ctx: &Ctx) -> Result<(), Fail> {
+    let g = group(kind);
+    let (a, b, c, d) = (0usize, 1usize, 2usize, 3usize);
+    for f in &g.fns {
+        instr::reset(f.name);
+        clear_cache(f.name);
+    }
+    let warm = |idx: &[usize]| -> Result<(), Fail> {
+        for &i in idx {
+            for k in GROUP_KEYS {
+                (g.fns[i].call)(k);
+            }
+            let before = instr::runs(g.fns[i].name);
+            for k in GROUP_KEYS {
+                (g.fns[i].call)(k);
+            }
+            let ran = instr::runs(g.fns[i].name) - before;
+            if ran != 0 {
+                let what = format!("{}: second round over keys {GROUP_KEYS:?} ran the body {ran} times with no invalidation requested", g.fns[i].name);
+                ctx.report("warm-up", Fail { prop: "C13", what })?;
+            }
+        }
+        Ok(())
+    };
+
+    // only A has been used so far: B and C declare t2 / e1 / d1 too but have registered nothing yet
+    let first = !GROUP_USED[(kind == Kind::Async) as usize].swap(true, Ordering::Relaxed);
+    if first {
+        step("only A used");
+        warm(&[a])?;
+        group_request(ctx, &g, Req::Tag(g.t2), &[a], &[a])?;
+        group_request(ctx, &g, Req::Event(g.e1), &[a], &[a])?;
+        group_request(ctx, &g, Req::Dep(g.d1), &[], &[a])?;
+        group_request(ctx, &g, Req::Name(g.fns[b].name), &[], &[a])?;
+    }
+
+    step("warm-up of A B C D");
+    warm(&[a, b, c, d])?;
+    let all = [a, b, c, d];
+    let (na, nb, nc, nd) = (g.fns[a].name, g.fns[b].name, g.fns[c].name, g.fns[d].name);
+    let plan: Vec<(Req, Vec<usize>)> = vec![
+        (Req::Tag(g.t1), vec![a]),
+        (Req::Tag(g.t2), vec![a, b]),
+        (Req::Event(g.e1), vec![a, c]),
+        (Req::Dep(g.d1), vec![b, c]),
+        // C lists A's name as a dependency; B lists its own
+        (Req::Dep(na), vec![c]),
+        (Req::Dep(nb), vec![b]),
+        (Req::Dep(nc), vec![]),
+        // names nothing declares
+        (Req::Tag(g.nothing), vec![]),
+        (Req::Event(g.nothing), vec![]),
+        (Req::Dep(g.nothing), vec![]),
+        (Req::Name(g.nothing), vec![]),
+        // the wrong table
+        (Req::Event(g.t1), vec![]),
+        (Req::Event(g.t2), vec![]),
+        (Req::Tag(g.e1), vec![]),
+        (Req::Tag(g.d1), vec![]),
+        (Req::Dep(g.t2), vec![]),
+        (Req::Dep(g.e1), vec![]),
+        (Req::Tag(na), vec![]),
+        (Req::Event(na), vec![]),
+        // by name: exactly that cache
+        (Req::Name(na), vec![a]),
+        (Req::Name(nb), vec![b]),
+        (Req::Name(nc), vec![c]),
+        // the control declares nothing: no request reaches it, not even its own name
+        (Req::Name(nd), vec![]),
+        (Req::Tag(nd), vec![]),
+        (Req::Event(nd), vec![]),
+        (Req::Dep(nd), vec![]),
+    ];
+    for (req, matching) in &plan {
+        group_request(ctx, &g, *req, matching, &all)?;
+    }
+    Ok(())
+}
+
+// ------------------------------------------------------------------------------------------------
+// C13 conditional_invalidation
+// ------------------------------------------------------------------------------------------------
+fn keyset(keys: &[u32]) -> BTreeSet<String> {
+    keys.iter().map(|k| format!("{k:?}")).collect()
+}
+fn listed(name: &'static str) -> Result<BTreeSet<String>, Fail> {
+    match list_keys(name) {
+        Some(k) => Ok(k),
+        None => fail("C13", format!("invalidate_with({name:?}, |_| false) returned false although the cache has been used")),
+    }
+}
+fn matches(keys: &[u32], k: &str) -> bool {
+    k.parse::<u32>().map_or(false, |x| keys.contains(&x))
+}
+
+/// One call of a `u64` function of the C13 family: the body must run `expect_runs` times, the value must be the twin's.
+fn call13(f: &F<fn(u32) -> u64>, a: u32, expect_runs: u64, context: &str) -> Result<(), Fail> {
+    let before = instr::runs(f.name);
+    let r = (f.call)(a);
+    let ran = instr::runs(f.name) - before;
+    if r != twin13(a) {
+        return fail("C13", format!("{context}: {}({a}) returned {r}, the uncached twin gives {}", f.name, twin13(a)));
+    }
+    if ran != expect_runs {
+        let how = if expect_runs == 0 { "served from the cache" } else { "executed" };
+        return fail("C13", format!("{context}: {}({a}) ran the body {ran} times, expected {expect_runs} ({how})", f.name));
+    }
+    Ok(())
+}
+fn expect_keys(name: &'static str, want: &[u32], context: &str) -> Result<(), Fail> {
+    let got = listed(name)?;
+    if got != keyset(want) {
+        return fail("C13", format!("{context}: cache {name} holds keys {got:?}, expected {:?}", keyset(want)));
+    }
+    Ok(())
+}
+
+/// Store 1..=4 in a cache of limit 4, hit `hits`, invalidate exactly `remove`, then store `adds` one by one.
+/// After each step the key listing (which touches neither order nor recency) must be the given one: limits and
+/// eviction order behave as if the removed entries had never been stored. Calls probe only at the very end.
+struct LimitCase {
+    label: &'static str,
+    hits: &'static [u32],
+    remove: &'static [u32],
+    after: &'static [u32],
+    adds: &'static [(u32, &'static [u32])],
+    /// a key that is gone at the end: must execute again
+    gone: u32,
+}
+
+fn limit_case(f: &F<fn(u32) -> u64>, c: &LimitCase) -> Result<(), Fail> {
+    let name = f.name;
+    let cx = format!("{name} [{}]", c.label);
+    step(cx.clone());
+    instr::reset(name);
+    clear_cache(name);
+    for a in 1..=4u32 {
+        call13(f, a, 1, &format!("{cx}: filling an empty cache of limit 4"))?;
+    }
+    expect_keys(name, &[1, 2, 3, 4], &format!("{cx}: after storing 1..=4"))?;
+    for &h in c.hits {
+        call13(f, h, 0, &format!("{cx}: hit before the invalidation"))?;
+    }
+    let remove = c.remove;
+    let found = cachelito_core::invalidate_with(name, |k| matches(remove, k));
+    if !found {
+        return fail("C13", format!("{cx}: invalidate_with({name:?}, key in {remove:?}) returned false although the cache has been used"));
+    }
+    expect_keys(name, c.after, &format!("{cx}: after invalidate_with(key in {remove:?})"))?;
+    let mut last: &[u32] = c.after;
+    for (a, want) in c.adds {
+        call13(f, *a, 1, &format!("{cx}: storing a new key after the invalidation"))?;
+        expect_keys(
+            name,
+            want,
+            &format!("{cx}: invalidated {remove:?} out of [1, 2, 3, 4] (hits {:?}), held {last:?}, then stored {a}", c.hits),
+        )?;
+        last = want;
+    }
+    // probes by calls, at the very end: everything listed is served, a removed / evicted key executes
+    for &a in last {
+        call13(f, a, 0, &format!("{cx}: final probe of the resident keys {last:?}"))?;
+    }
+    call13(f, c.gone, 1, &format!("{cx}: final probe of a key that is gone"))
+}
+
+const FIFO_CASES: [LimitCase; 5] = [
+    LimitCase {
+        label: "fifo, remove the second oldest",
+        hits: &[],
+        remove: &[2],
+        after: &[1, 3, 4],
+        adds: &[(5, &[1, 3, 4, 5]), (6, &[3, 4, 5, 6]), (7, &[4, 5, 6, 7])],
+        gone: 2,
+    },
+    LimitCase { label: "fifo, remove the newest", hits: &[], remove: &[4], after: &[1, 2, 3], adds: &[(5, &[1, 2, 3, 5]), (6, &[2, 3, 5, 6])], gone: 4 },
+    LimitCase { label: "fifo, remove the oldest", hits: &[], remove: &[1], after: &[2, 3, 4], adds: &[(5, &[2, 3, 4, 5]), (6, &[3, 4, 5, 6])], gone: 1 },
+    LimitCase {
+        label: "fifo, remove all",
+        hits: &[],
+        remove: &[1, 2, 3, 4],
+        after: &[],
+        adds: &[(5, &[5]), (6, &[5, 6]), (7, &[5, 6, 7]), (8, &[5, 6, 7, 8]), (9, &[6, 7, 8, 9])],
+        gone: 3,
+    },
+    LimitCase { label: "fifo, remove none", hits: &[], remove: &[], after: &[1, 2, 3, 4], adds: &[(5, &[2, 3, 4, 5])], gone: 1 },
+];
+// after the hit on 1 the recency order is 2 3 4 1
+const LRU_CASES: [LimitCase; 4] = [
+    LimitCase {
+        label: "lru, remove the least recently used",
+        hits: &[1],
+        remove: &[2],
+        after: &[1, 3, 4],
+        adds: &[(5, &[1, 3, 4, 5]), (6, &[1, 4, 5, 6]), (7, &[1, 5, 6, 7]), (8, &[5, 6, 7, 8])],
+        gone: 3,
+    },
+    LimitCase { label: "lru, remove the most recently used", hits: &[1], remove: &[1], after: &[2, 3, 4], adds: &[(5, &[2, 3, 4, 5]), (6, &[3, 4, 5, 6])], gone: 1 },
+    LimitCase {
+        label: "lru, remove two in the middle",
+        hits: &[1],
+        remove: &[3, 4],
+        after: &[1, 2],
+        adds: &[(5, &[1, 2, 5]), (6, &[1, 2, 5, 6]), (7, &[1, 5, 6, 7]), (8, &[5, 6, 7, 8])],
+        gone: 3,
+    },
+    LimitCase { label: "lru, remove none", hits: &[1], remove: &[], after: &[1, 2, 3, 4], adds: &[(5, &[1, 3, 4, 5])], gone: 2 },
+];
+
+/// The removed key executes again, the kept ones are served: probed right after the invalidation.
+fn immediate_probe(f: &F<fn(u32) -> u64>) -> Result<(), Fail> {
+    let name = f.name;
+    let cx = format!("{name} [probe right after invalidate_with(key == \"2\")]");
+    step(cx.clone());
+    instr::reset(name);
+    clear_cache(name);
+    for a in 1..=4u32 {
+        call13(f, a, 1, &format!("{cx}: filling"))?;
+    }
+    if !cachelito_core::invalidate_with(name, |k| k == "2") {
+        return fail("C13", format!("{cx}: invalidate_with returned false although the cache has been used"));
+    }
+    for a in [1u32, 3, 4] {
+        call13(f, a, 0, &format!("{cx}: a key the predicate rejected"))?;
+    }
+    call13(f, 2, 1, &format!("{cx}: the key the predicate matched"))
+}
+
+fn unknown_name(c: &Cond) -> Result<(), Fail> {
+    let f = &c.fifo;
+    let cx = format!("invalidate_with({:?}, |_| true)", c.unknown);
+    step(cx.clone());
+    instr::reset(f.name);
+    clear_cache(f.name);
+    for a in 1..=3u32 {
+        call13(f, a, 1, &format!("{cx}: filling {}", f.name))?;
+    }
+    if cachelito_core::invalidate_with(c.unknown, |_| true) {
+        return fail("C13", format!("{cx} returned true although no cache is registered under that name"));
+    }
+    expect_keys(f.name, &[1, 2, 3], &format!("{cx}: a name nothing registered"))?;
+    for a in 1..=3u32 {
+        call13(f, a, 0, &format!("{cx}: a name nothing registered"))?;
+    }
+    Ok(())
+}
+
+fn all_with(c: &Cond) -> Result<(), Fail> {
+    let (x, y) = (&c.fifo, &c.other);
+    let cx = format!("invalidate_all_with(|name, key| name == {:?} && key == \"2\")", x.name);
+    step(cx.clone());
+    for f in [x, y, &c.lru] {
+        instr::reset(f.name);
+        clear_cache(f.name);
+        for a in 1..=3u32 {
+            call13(f, a, 1, &format!("{cx}: filling {}", f.name))?;
+        }
+    }
+    let target = x.name;
+    let n = cachelito_core::invalidate_all_with(|name, key| name == target && key == "2");
+    if n < 3 {
+        return fail("C13", format!("{cx} returned {n}: at least the 3 caches {:?} {:?} {:?} have been used", x.name, y.name, c.lru.name));
+    }
+    expect_keys(x.name, &[1, 3], &format!("{cx}: the named cache"))?;
+    expect_keys(y.name, &[1, 2, 3], &format!("{cx}: another cache with the same keys"))?;
+    expect_keys(c.lru.name, &[1, 2, 3], &format!("{cx}: another cache with the same keys"))?;
+    for f in [y, &c.lru] {
+        for a in 1..=3u32 {
+            call13(f, a, 0, &format!("{cx}: another cache with the same keys"))?;
+        }
+    }
+    call13(x, 1, 0, &format!("{cx}: the named cache, a key the predicate rejected"))?;
+    call13(x, 3, 0, &format!("{cx}: the named cache, a key the predicate rejected"))?;
+    call13(x, 2, 1, &format!("{cx}: the named cache, the matching key"))?;
+    // a predicate that holds for no cache name changes nothing anywhere
+    let n2 = cachelito_core::invalidate_all_with(|name, _| name == c.unknown);
+    if n2 < 3 {
+        return fail("C13", format!("invalidate_all_with(|name, _| name == {:?}) returned {n2}, at least 3 caches are registered", c.unknown));
+    }
+    for f in [x, y, &c.lru] {
+        expect_keys(f.name, &[1, 2, 3], "invalidate_all_with with a predicate that matches no cache name")?;
+    }
+    Ok(())
+}
+
+/// `max_memory` only: the budget freed by an invalidated entry is available to the next store.
+fn memory_case(c: &Cond) -> Result<(), Fail> {
+    use cachelito_core::MemoryEstimator;
+    let f = &c.mem;
+    let name = f.name;
+    let cx = format!("{name} [max_memory = 1KB, no limit]");
+    step(cx.clone());
+    let one = twin13_mem(1).clone().estimate_memory();
+    if !(3 * one <= 1024 && 4 * one > 1024) {
+        return harness(format!("{cx}: one value is estimated at {one} bytes: three must fit into 1024, four must not"));
+    }
+    instr::reset(name);
+    clear_cache(name);
+    let call = |a: u32, expect_runs: u64, context: &str| -> Result<(), Fail> {
+        let before = instr::runs(name);
+        let r = (f.call)(a);
+        let ran = instr::runs(name) - before;
+        if r != twin13_mem(a) {
+            return fail("C13", format!("{cx}: {context}: {name}({a}) returned a value that differs from the uncached twin"));
+        }
+        if ran != expect_runs {
+            return fail("C13", format!("{cx}: {context}: {name}({a}) ran the body {ran} times, expected {expect_runs}"));
+        }
+        Ok(())
+    };
+    for a in 1..=3u32 {
+        call(a, 1, "filling")?;
+    }
+    expect_keys(name, &[1, 2, 3], &format!("{cx}: three values of {one} bytes"))?;
+    if !cachelito_core::invalidate_with(name, |k| k == "2") {
+        return fail("C13", format!("{cx}: invalidate_with returned false although the cache has been used"));
+    }
+    expect_keys(name, &[1, 3], &format!("{cx}: after invalidate_with(key == \"2\")"))?;
+    call(4, 1, "storing a fourth value after the invalidation")?;
+    expect_keys(name, &[1, 3, 4], &format!("{cx}: 2 of [1, 2, 3] invalidated, then 4 stored: {} of 1024 bytes, nothing to evict", 3 * one))?;
+    call(5, 1, "storing a fifth value")?;
+    expect_keys(name, &[3, 4, 5], &format!("{cx}: then 5 stored: the oldest survivor goes"))?;
+    for a in [3u32, 4, 5] {
+        call(a, 0, "final probe of the resident keys")?;
+    }
+    call(1, 1, "final probe of the evicted key")
+}
+
+fn conditional_invalidation(kind: Kind, _ctx: &Ctx) -> Result<(), Fail> {
+    let c = cond(kind);
+    immediate_probe(&c.fifo)?;
+    immediate_probe(&c.lru)?;
+    for case in &FIFO_CASES {
+        limit_case(&c.fifo, case)?;
+    }
+    for case in &LRU_CASES {
+        limit_case(&c.lru, case)?;
+    }
+    unknown_name(&c)?;
+    all_with(&c)?;
+    memory_case(&c)
+}
+
+// ------------------------------------------------------------------------------------------------
 // the scenario table and the driver
 // ------------------------------------------------------------------------------------------------
 struct Scenario {
@@ -1429,6 +2012,19 @@ fn scenarios() -> Vec<Scenario> {
         }
     }
     v.push(Scenario { name: "suspended_or_dropped".to_string(), props: &["C20"], run: Box::new(suspended_or_dropped) });
+    // the invalidation registry knows global and async caches only
+    for kind in [Kind::Global, Kind::Async] {
+        v.push(Scenario {
+            name: format!("group_invalidation_{}", kind.name()),
+            props: &["C12", "C13"],
+            run: Box::new(move |ctx| group_invalidation(kind, ctx)),
+        });
+        v.push(Scenario {
+            name: format!("conditional_invalidation_{}", kind.name()),
+            props: &["C13"],
+            run: Box::new(move |ctx| conditional_invalidation(kind, ctx)),
+        });
+    }
     v
 }
 
@@ -1535,7 +2131,7 @@ pub fn main_macro(args: &[String]) -> i32 {
         // only scenarios that can attribute a failure to that property are worth running
         list.retain(|sc| sc.props.contains(&p.as_str()));
         if list.is_empty() {
-            eprintln!("no macro-level scenario is attributed to {p} (known: C01 C02 C03 C09 C10 C11 C20)");
+            eprintln!("no macro-level scenario is attributed to {p} (known: C01 C02 C03 C09 C10 C11 C12 C13 C20)");
             println!("{}", searched_line(0));
             return 0;
         }
